@@ -218,8 +218,14 @@ def run_hypothesis(col, name, strategy, body, max_examples, seed, shrink=True, r
         except Violation:
             v = last["v"]
             col.record_failure(v.key, v.detail, {"check": name, "case": last["case"]})
-        except hypothesis.errors.Flaky as e:   # nondeterminism in the harness -> harness error
-            raise HarnessError("flaky case in %s: %r" % (name, e))
+        except hypothesis.errors.Flaky as e:
+            # the case did not fail again when Hypothesis re-ran it.  If an oracle did observe a property failure on the real code, it is reported
+            # (the failure happened; it depends on randomness inside the library that the drawn case does not pin); otherwise it is a harness error.
+            v = last.get("v")
+            if v is None:
+                raise HarnessError("flaky case in %s: %r" % (name, e))
+            col.record_failure(v.key, "%s  [observed once; not reproduced on re-execution of the same drawn case - depends on randomness the case does not pin]" % v.detail,
+                               {"check": name, "case": last["case"]})
 
 
 def atomic_write_json(path, obj):
@@ -251,4 +257,10 @@ def run_machine(col, name, make_machine, max_examples, seed, step_count=20, shri
                 continue
             col.record_failure(v.key, v.detail, {"check": name, "config": holder.get("config"), "steps": holder.get("steps")})
         except hypothesis.errors.Flaky as e:
-            raise HarnessError("flaky machine %s: %r" % (name, e))
+            # see run_hypothesis: an observed oracle failure is reported even if re-execution of the drawn history did not reproduce it
+            vs = [x for x in getattr(e, "exceptions", ()) if isinstance(x, Violation)]
+            if not vs:
+                raise HarnessError("flaky machine %s: %r" % (name, e))
+            v = vs[0]
+            col.record_failure(v.key, "%s  [observed once; not reproduced on re-execution of the same drawn history]" % v.detail,
+                               {"check": name, "config": holder.get("config"), "steps": holder.get("steps")})
